@@ -65,6 +65,7 @@ type c08Monitor struct {
 	snaps    []*run.Delivered
 	spans    []span
 	scribble bool
+	ptrs     map[uintptr]string // every record reachable by pointer from an earlier delivery
 	fail     func(key, msg string)
 	values   int
 	checked  int64
@@ -147,6 +148,27 @@ func (m *c08Monitor) onDelivery(n int, tx *gobinlog.Transaction, d *run.Delivere
 		lo := uintptr(unsafe.Pointer(&b[0]))
 		mine = append(mine, span{lo, lo + uintptr(len(b)), path})
 	})
+	// no record handed out by pointer may be shared between two deliveries
+	// (a shared *Charset, a re-used *StreamEvent ...): what one handler does
+	// to its transaction must not reach another
+	if m.ptrs == nil {
+		m.ptrs = map[uintptr]string{}
+	}
+	shared := ""
+	minePtrs := map[uintptr]string{}
+	walkPointers(reflect.ValueOf(tx), fmt.Sprintf("tx%d", n), minePtrs)
+	for a, where := range minePtrs {
+		if prev, ok := m.ptrs[a]; ok && shared == "" {
+			shared = fmt.Sprintf("%s and %s", prev, where)
+		}
+	}
+	for a, where := range minePtrs {
+		m.ptrs[a] = where
+	}
+	if shared != "" {
+		m.fail("c08:record-shared-between-deliveries", "two deliveries point at the same record: "+shared)
+		return
+	}
 	m.values += len(mine)
 	all := append(m.spans, mine...)
 	sort.Slice(all, func(i, j int) bool { return all[i].lo < all[j].lo })
@@ -370,6 +392,51 @@ func walkByteSlices(v reflect.Value, path string, seen map[uintptr]bool, visit f
 		it := v.MapRange()
 		for it.Next() {
 			walkByteSlices(it.Value(), fmt.Sprintf("%s[%v]", path, it.Key()), seen, visit)
+		}
+	}
+}
+
+// walkPointers records the address of every non-nil pointer to a struct that
+// is reachable from v through exported fields.
+func walkPointers(v reflect.Value, path string, out map[uintptr]string) {
+	switch v.Kind() {
+	case reflect.Ptr:
+		if v.IsNil() {
+			return
+		}
+		if _, seen := out[v.Pointer()]; seen {
+			return
+		}
+		if v.Elem().Kind() == reflect.Struct {
+			out[v.Pointer()] = path
+		}
+		walkPointers(v.Elem(), path, out)
+	case reflect.Interface:
+		if !v.IsNil() {
+			walkPointers(v.Elem(), path, out)
+		}
+	case reflect.Struct:
+		tp := v.Type()
+		for i := 0; i < v.NumField(); i++ {
+			if tp.Field(i).PkgPath != "" {
+				continue
+			}
+			walkPointers(v.Field(i), path+"."+tp.Field(i).Name, out)
+		}
+	case reflect.Slice, reflect.Array:
+		if v.Kind() == reflect.Slice && v.IsNil() {
+			return
+		}
+		if k := v.Type().Elem().Kind(); k != reflect.Ptr && k != reflect.Struct && k != reflect.Interface && k != reflect.Slice {
+			return
+		}
+		for i := 0; i < v.Len(); i++ {
+			walkPointers(v.Index(i), fmt.Sprintf("%s[%d]", path, i), out)
+		}
+	case reflect.Map:
+		it := v.MapRange()
+		for it.Next() {
+			walkPointers(it.Value(), fmt.Sprintf("%s[%v]", path, it.Key()), out)
 		}
 	}
 }
